@@ -317,19 +317,25 @@ type typeGuesser struct {
 }
 
 func (g *typeGuesser) Guess() (SchemaType, error) {
-	m := map[SchemaType]func() bool{
-		SchemaTypeString:  g.isString,
-		SchemaTypeInteger: g.isInteger,
-		SchemaTypeFloat:   g.isFloat,
-		SchemaTypeBoolean: g.isBoolean,
-		SchemaTypeObject:  g.isObject,
-		SchemaTypeArray:   g.isArray,
-		SchemaTypeNull:    g.isNull,
+	// In a fixed order, the string test first: a quoted text may look like a
+	// number to the tests that follow ("a.b" has a point and no exponent), and
+	// the answer must not depend on Go's random map iteration order.
+	tests := []struct {
+		t  SchemaType
+		fn func() bool
+	}{
+		{SchemaTypeString, g.isString},
+		{SchemaTypeInteger, g.isInteger},
+		{SchemaTypeFloat, g.isFloat},
+		{SchemaTypeBoolean, g.isBoolean},
+		{SchemaTypeObject, g.isObject},
+		{SchemaTypeArray, g.isArray},
+		{SchemaTypeNull, g.isNull},
 	}
 
-	for t, fn := range m {
-		if fn() {
-			return t, nil
+	for _, tt := range tests {
+		if tt.fn() {
+			return tt.t, nil
 		}
 	}
 	return SchemaTypeUndefined, ErrUnknownSchemaType
